@@ -39,10 +39,10 @@ Proof. vm_compute. reflexivity. Qed.
    uprights-parallel case give NaN (corner 4 is NaN), but the parallelogram case only looks at three corners; the
    fourth weight (s t) then multiplies the datum of the FIRST neighbour (argmax of an all-False row is 0) *)
 Definition miss_l : list (float * float * Z) := [((-1)%float, 1%float, 10%Z); (1%float, 1%float, 11%Z); ((-1)%float, (-1)%float, 12%Z)].
-Definition miss_data (i : Z) : float := if Z.eqb i 10 then 100%float else if Z.eqb i 11 then 200%float else if Z.eqb i 12 then 300%float else nan.
+Definition miss_data (i : Z) : float := if Z.eqb i 10 then 100%float else if Z.eqb i 11 then 200%float else if Z.eqb i 12 then 300%float else PrimFloat.nan.
 Lemma value_with_missing_corner_f64 :
   found_corners F64 0%float 0%float miss_l = None /\
   nb_i (corner F64 LR 0%float 0%float miss_l) = 10%Z /\
-  fractional_distances F64 (-1, 1)%float (1, 1)%float (-1, -1)%float (nan, nan) 0%float 0%float = (0.5, 0.5)%float /\
+  fractional_distances F64 (-1, 1)%float (1, 1)%float (-1, -1)%float (PrimFloat.nan, PrimFloat.nan) 0%float 0%float = (0.5, 0.5)%float /\
   pixel F64 miss_data miss_l 0%float 0%float = 175%float.
 Proof. vm_compute. repeat split; reflexivity. Qed.
